@@ -8,6 +8,7 @@ import (
 	"encoding/hex"
 	"fmt"
 	"math"
+	"os"
 	"strings"
 
 	lua "github.com/yuin/gopher-lua"
@@ -183,4 +184,34 @@ func loadOnce(src []byte, wantProto bool) (class int, msg string, proto string) 
 		proto = hex.EncodeToString(h[:])
 	}
 	return loadFunction, "", proto
+}
+
+// loadFileOnce writes src to a temporary file and loads it with LState.LoadFile (first line
+// starting with '#' is skipped there).
+func loadFileOnce(src []byte) (class int, msg string) {
+	defer func() {
+		if r := recover(); r != nil {
+			class, msg = loadPanic, "panic escaped LoadFile: "+trunc(fmt.Sprint(r), 300)
+		}
+	}()
+	f, err := os.CreateTemp("", "c08-*.lua")
+	if err != nil {
+		return loadOtherErr, "harness: " + err.Error()
+	}
+	defer os.Remove(f.Name())
+	f.Write(src)
+	f.Close()
+	L := lua.NewState(lua.Options{SkipOpenLibs: true})
+	defer L.Close()
+	fn, err := L.LoadFile(f.Name())
+	if err != nil {
+		if ae, ok := err.(*lua.ApiError); ok && ae.Type == lua.ApiErrorSyntax {
+			return loadSyntax, trunc(strings.Replace(strings.TrimSpace(err.Error()), f.Name(), "<file>", -1), 200)
+		}
+		return loadOtherErr, trunc(fmt.Sprintf("%T: %v", err, err), 300)
+	}
+	if fn == nil || fn.Proto == nil {
+		return loadOtherErr, "LoadFile returned neither a Lua function nor an error"
+	}
+	return loadFunction, ""
 }
